@@ -263,6 +263,15 @@ fn generate_deserialize_with_derive(
             .attrs
             .push(parse_quote!(#[serde(rename = #qualified_name)]));
 
+        // An error without parameters can still come with a `parameters` member (systemd and the
+        // reference implementations always send `"parameters": {}`), which a plain unit variant
+        // only accepts when it is `null`.
+        if matches!(variant.fields, Fields::Unit) {
+            variant
+                .attrs
+                .push(parse_quote!(#[serde(deserialize_with = "__zlink_no_parameters")]));
+        }
+
         // Add serde rename attributes to fields based on their serialized names.
         if let (Fields::Named(fields), Some(field_info)) = (&mut variant.fields, field_info) {
             for (field, name_str) in fields.named.iter_mut().zip(&field_info.name_strings) {
@@ -331,6 +340,47 @@ fn generate_deserialize_with_derive(
             where
                 D: serde::Deserializer<'de>,
             {
+                // The `parameters` of an error that has none: `null` or an object.
+                #[allow(dead_code)]
+                fn __zlink_no_parameters<'de, D>(deserializer: D) -> core::result::Result<(), D::Error>
+                where
+                    D: serde::Deserializer<'de>,
+                {
+                    struct NoParameters;
+
+                    impl<'de> serde::de::Visitor<'de> for NoParameters {
+                        type Value = ();
+
+                        fn expecting(
+                            &self,
+                            formatter: &mut core::fmt::Formatter<'_>,
+                        ) -> core::fmt::Result {
+                            formatter.write_str("null or an object")
+                        }
+
+                        fn visit_unit<E>(self) -> core::result::Result<(), E> {
+                            Ok(())
+                        }
+
+                        fn visit_none<E>(self) -> core::result::Result<(), E> {
+                            Ok(())
+                        }
+
+                        fn visit_map<A>(self, mut map: A) -> core::result::Result<(), A::Error>
+                        where
+                            A: serde::de::MapAccess<'de>,
+                        {
+                            while map
+                                .next_entry::<serde::de::IgnoredAny, serde::de::IgnoredAny>()?
+                                .is_some()
+                            {}
+                            Ok(())
+                        }
+                    }
+
+                    deserializer.deserialize_any(NoParameters)
+                }
+
                 #[derive(serde::Deserialize)]
                 #[serde(tag = "error", content = "parameters")]
                 enum __ZlinkDeserHelper #orig_impl_generics #orig_where_clause {
